@@ -49,6 +49,7 @@ __CPROVER_assigns(__CPROVER_object_whole(uf_parent))
 /* C15.uf: find returns the representative of x's class (and terminates: loop `decreases` on DEPTH) */
 __CPROVER_ensures(__CPROVER_return_value == UF_ROOT(x))
 __CPROVER_ensures(__CPROVER_return_value < UF_N && UF_P(__CPROVER_return_value) == __CPROVER_return_value)
+__CPROVER_ensures(UF_ROOT(__CPROVER_return_value) == __CPROVER_return_value && UF_DEPTH(__CPROVER_return_value) == 0)
 /* ... and leaves the partition unchanged: the same ROOT still satisfies the representation invariant at every element
  * (ghost elements UG, UG2; caller-chosen witnesses w1, w2) */
 __CPROVER_ensures(UF_INV(UG))
@@ -75,28 +76,867 @@ __CPROVER_decreases(UF_DEPTH(x))
 )
 
 
-def _h(fn, call, decls="", pre=""):
+
+# ghost update convention for operations that change the abstract partition (merge, resize, push_back):
+# the postcondition is "there EXISTS a new ROOT/DEPTH assignment that satisfies the representation invariant and is related
+# to the old one as the property says".  The witness is written by ghost code (body_suffix) at the cells the
+# postcondition inspects for the arbitrary ghost elements; callers (replace mode) see ROOT/DEPTH in the frame.
+
+# merge = find(x); find(y); link(the two roots).  The linking block `if (x != y) { ... }` is its own unit (uf_link): it is where
+# the abstract partition changes, so it carries the ghost update; merge itself only composes the three contracts.
+UF_LINK_ENS = {
+    # the two roots end in one class whose representative is one of them
+    "xy": "__CPROVER_ensures((UF_ROOT(x) == x || UF_ROOT(x) == y) && UF_ROOT(y) == UF_ROOT(x))",
+    # an arbitrary element moves to the merged class iff it was in one of the two, keeps its representative otherwise
+    "ug": "__CPROVER_ensures(UF_ROOT(UG) == ((__CPROVER_old(UF_ROOT(UG)) == x || __CPROVER_old(UF_ROOT(UG)) == y) ? UF_ROOT(x) : __CPROVER_old(UF_ROOT(UG))))",
+    "ug2": "__CPROVER_ensures(UF_ROOT(UG2) == ((__CPROVER_old(UF_ROOT(UG2)) == x || __CPROVER_old(UF_ROOT(UG2)) == y) ? UF_ROOT(x) : __CPROVER_old(UF_ROOT(UG2))))",
+    "w1": "__CPROVER_ensures(UF_ROOT(w1) == ((__CPROVER_old(UF_ROOT(w1)) == x || __CPROVER_old(UF_ROOT(w1)) == y) ? UF_ROOT(x) : __CPROVER_old(UF_ROOT(w1))))",
+    "w2": "__CPROVER_ensures(UF_ROOT(w2) == ((__CPROVER_old(UF_ROOT(w2)) == x || __CPROVER_old(UF_ROOT(w2)) == y) ? UF_ROOT(x) : __CPROVER_old(UF_ROOT(w2))))",
+    # the concrete structure represents this new partition (representation invariant, acyclicity via DEPTH)
+    "inv": "__CPROVER_ensures(UF_INV(UG) && UF_DEPTH(UG) <= __CPROVER_old(UF_DEPTH(UG)) + 1)",
+}
+# lemma split (as in spec/pool.py): every lemma group enforces a subset of the ensures clauses; the ghost witness is written
+# only at the cells that subset inspects.  The union of the lemmas is the full contract used by callers.
+UF_LINK_LEMMAS = {"root": ["xy", "ug"], "root2": ["ug2"], "wit": ["w1", "w2"], "inv": ["inv"]}
+UF_LINK_CELLS = {"root": (["x", "y", "UG"], []), "root2": (["x", "UG2"], []), "wit": (["x", "w1", "w2"], []),
+                 "inv": (["UG", "uf_parent[UG]", "GH_NEWROOT(UG)"], ["UG", "uf_parent[UG]"])}
+
+
+def _link_suffix(root_cells, depth_cells):
+    t = ["    /* ghost: witness of the existential.  New representative = whichever of the two roots is still a fixed point; every element\n"
+         "     * whose old representative was one of the two gets it; DEPTH of the absorbed class is shifted by one. */\n    {\n"
+         "        const size_t gh_rn = (uf_parent[x] == x) ? x : y;\n        const size_t gh_rl = (gh_rn == x) ? y : x;\n"
+         "#define GH_NEWROOT(i) ((UF_ROOT(i) == x || UF_ROOT(i) == y) ? gh_rn : UF_ROOT(i))\n"
+         "#define GH_NEWDEPTH(i) ((UF_ROOT(i) == gh_rl) ? UF_DEPTH(i) + 1 : UF_DEPTH(i))\n"]
+    for k, c in enumerate(root_cells):
+        t.append("        const size_t gh_i%d = %s; const size_t gh_r%d = GH_NEWROOT(gh_i%d);\n" % (k, c, k, k))
+    for k, c in enumerate(depth_cells):
+        t.append("        const size_t gh_j%d = %s; const size_t gh_d%d = GH_NEWDEPTH(gh_j%d);\n" % (k, c, k, k))
+    for k in range(len(root_cells)):
+        t.append("        UF_ROOT(gh_i%d) = gh_r%d;\n" % (k, k))
+    for k in range(len(depth_cells)):
+        t.append("        UF_DEPTH(gh_j%d) = gh_d%d;\n" % (k, k))
+    t.append("#undef GH_NEWROOT\n#undef GH_NEWDEPTH\n    }\n")
+    return "".join(t)
+
+
+def make_uf_link(lemma=None):
+    if lemma is None:
+        keys = list(UF_LINK_ENS)
+        rc, dc = [], []
+        for l in UF_LINK_LEMMAS:
+            rc += [c for c in UF_LINK_CELLS[l][0] if c not in rc]
+            dc += [c for c in UF_LINK_CELLS[l][1] if c not in dc]
+    else:
+        keys = UF_LINK_LEMMAS[lemma]
+        rc, dc = UF_LINK_CELLS[lemma]
+    return Unit(
+        name="uf_link", file=UF_H, anchor=r"void merge\(T x, T y\)", inner=r"if \(x != y\)\s*\{",
+        sig="void uf_link(UF_PARAMS, size_t x, size_t y, size_t w1, size_t w2)",
+        rules=UF_VOCAB, body_suffix=_link_suffix(rc, dc),
+        contract=r"""
+__CPROVER_requires(UF_SHAPE)
+/* two different roots */
+__CPROVER_requires(x < UF_N && y < UF_N && x != y && UF_P(x) == x && UF_ROOT(x) == x && UF_DEPTH(x) == 0 && UF_P(y) == y && UF_ROOT(y) == y && UF_DEPTH(y) == 0)
+__CPROVER_requires(UG2 < UF_N && w1 < UF_N && w2 < UF_N)
+""" + UF_GHOSTS + r"""
+/* the measure is a natural number: no wrap-around when the absorbed class is shifted by one */
+__CPROVER_requires(UF_DEPTH(UG) < SIZE_MAX)
+__CPROVER_assigns(__CPROVER_object_whole(uf_parent), __CPROVER_object_whole(uf_rank),
+                  __CPROVER_object_whole(UF_ROOTA), __CPROVER_object_whole(UF_DEPTHA))
+""" + "\n".join(UF_LINK_ENS[k] for k in keys) + "\n")
+
+
+uf_link = make_uf_link()
+
+uf_merge = Unit(
+    name="uf_merge", file=UF_H, anchor=r"void merge\(T x, T y\)",
+    sig="void uf_merge(UF_PARAMS, size_t x, size_t y)",
+    body_prefix="    const size_t gh_x0 = x, gh_y0 = y; /* ghost: the parameters are overwritten by the body */\n",
+    rules=[RB(r"if \(x != y\)", "{ uf_link(UF_ARGS, x, y, gh_x0, gh_y0); }")] + UF_VOCAB,
+    contract=r"""
+__CPROVER_requires(UF_SHAPE)
+__CPROVER_requires(x < UF_N && y < UF_N && UG2 < UF_N)
+""" + UF_GHOSTS + r"""
+__CPROVER_requires(UF_DEPTH(UG) < SIZE_MAX)
+__CPROVER_assigns(__CPROVER_object_whole(uf_parent), __CPROVER_object_whole(uf_rank),
+                  __CPROVER_object_whole(UF_ROOTA), __CPROVER_object_whole(UF_DEPTHA))
+/* C15.uf: merge unites exactly the two classes.  x and y end in one class whose representative is one of the two old ones */
+__CPROVER_ensures((UF_ROOT(x) == __CPROVER_old(UF_ROOT(x)) || UF_ROOT(x) == __CPROVER_old(UF_ROOT(y))) && UF_ROOT(y) == UF_ROOT(x))
+/* an arbitrary element moves to the merged class iff it was in one of the two, and keeps its representative otherwise */
+__CPROVER_ensures(UF_ROOT(UG) == ((__CPROVER_old(UF_ROOT(UG)) == __CPROVER_old(UF_ROOT(x)) || __CPROVER_old(UF_ROOT(UG)) == __CPROVER_old(UF_ROOT(y))) ? UF_ROOT(x) : __CPROVER_old(UF_ROOT(UG))))
+__CPROVER_ensures(UF_ROOT(UG2) == ((__CPROVER_old(UF_ROOT(UG2)) == __CPROVER_old(UF_ROOT(x)) || __CPROVER_old(UF_ROOT(UG2)) == __CPROVER_old(UF_ROOT(y))) ? UF_ROOT(x) : __CPROVER_old(UF_ROOT(UG2))))
+/* and the concrete structure represents this new partition (representation invariant, acyclicity via DEPTH) */
+__CPROVER_ensures(UF_INV(UG) && UF_DEPTH(UG) <= __CPROVER_old(UF_DEPTH(UG)) + 1)
+""",
+)
+
+uf_resize = Unit(
+    name="uf_resize", file=UF_H, anchor=r"void resize\(size_t _size\)",
+    sig="void uf_resize(UF_PARAMS, size_t _size)",
+    rules=UF_VOCAB,
+    body_suffix="    /* ghost: every element is its own class */ if (UG < _size) { UF_ROOT(UG) = UG; UF_DEPTH(UG) = 0; }\n",
+    contract=r"""
+__CPROVER_requires(UF_SHAPE)
+__CPROVER_requires(_size <= uf_cap && UG < uf_cap && UG2 < uf_cap)
+__CPROVER_assigns(uf_pn, uf_rn, __CPROVER_object_whole(uf_parent), __CPROVER_object_whole(uf_rank),
+                  __CPROVER_object_whole(UF_ROOTA), __CPROVER_object_whole(UF_DEPTHA))
+__CPROVER_ensures(uf_pn == _size && uf_rn == _size)
+/* C15.uf: after resize(n) the structure holds n singleton classes */
+__CPROVER_ensures(UG < _size ==> (UF_P(UG) == UG && UF_ROOT(UG) == UG && UF_INV(UG)))
+/* ranks of surviving elements are kept, new ones are 0 (rank never matters for the partition) */
+__CPROVER_ensures((UG < _size && UG >= __CPROVER_old(uf_rn)) ==> uf_rank[UG] == 0)
+""",
+)
+
+uf_clear = Unit(
+    name="uf_clear", file=UF_H, anchor=r"void clear\(\)",
+    sig="void uf_clear(UF_PARAMS)",
+    rules=UF_VOCAB,
+    contract=r"""
+__CPROVER_requires(UF_SHAPE)
+__CPROVER_requires(UG < uf_cap && UG2 < uf_cap)
+__CPROVER_assigns(uf_pn, uf_rn, __CPROVER_object_whole(uf_parent), __CPROVER_object_whole(uf_rank),
+                  __CPROVER_object_whole(UF_ROOTA), __CPROVER_object_whole(UF_DEPTHA))
+__CPROVER_ensures(uf_pn == __CPROVER_old(uf_pn) && uf_rn == uf_pn)
+/* C15.uf / C09: clear() forgets every earlier merge: size() singleton classes, all ranks 0 */
+__CPROVER_ensures(UG < uf_pn ==> (UF_P(UG) == UG && UF_ROOT(UG) == UG && UF_INV(UG) && uf_rank[UG] == 0))
+""",
+)
+
+uf_push_back = Unit(
+    name="uf_push_back", file=UF_H, anchor=r"void push_back\(T c\)",
+    sig="void uf_push_back(UF_PARAMS, size_t c)",
+    rules=UF_VOCAB,
+    body_prefix="    const size_t gh_n0 = uf_pn; const size_t gh_r = (c < uf_pn) ? UF_ROOT(c) : c; const size_t gh_d = (c < uf_pn) ? UF_DEPTH(c) + 1 : 0;\n",
+    body_suffix="    /* ghost: the new element joins the class of c */ UF_ROOT(gh_n0) = gh_r; UF_DEPTH(gh_n0) = gh_d;\n",
+    contract=r"""
+__CPROVER_requires(UF_SHAPE)
+/* the class of the new item is an existing element or the new item itself; room in the (ghost) capacity */
+__CPROVER_requires(uf_pn < uf_cap && c <= uf_pn)
+__CPROVER_requires(UG <= uf_pn && (UG < uf_pn ==> UF_INV(UG)))
+__CPROVER_requires(c < uf_pn ==> (UF_INV(c) && UF_DEPTH(c) < SIZE_MAX))
+__CPROVER_assigns(uf_pn, uf_rn, __CPROVER_object_whole(uf_parent), __CPROVER_object_whole(uf_rank),
+                  __CPROVER_object_whole(UF_ROOTA), __CPROVER_object_whole(UF_DEPTHA))
+__CPROVER_ensures(uf_pn == __CPROVER_old(uf_pn) + 1 && uf_rn == uf_pn)
+__CPROVER_ensures(UF_ROOT(uf_pn - 1) == (c < uf_pn - 1 ? __CPROVER_old(UF_ROOT(c)) : c))
+__CPROVER_ensures(UG < uf_pn - 1 ==> UF_ROOT(UG) == __CPROVER_old(UF_ROOT(UG)))
+__CPROVER_ensures(UF_INV(UG))
+""",
+)
+
+
+def _h(fn, call, pre=""):
     return r"""
 size_t nondet_size_t(void); _Bool nondet_bool(void); double nondet_double(void);
 void h_%(fn)s(void)
 {
     size_t *uf_parent, *uf_rank, *UF_ROOTA, *UF_DEPTHA;
+    /* scratch pre-state of the object is arbitrary (C09: nothing is assumed about earlier calls) */
     uf_pn = nondet_size_t(); uf_rn = nondet_size_t(); uf_cap = nondet_size_t();
     UG = nondet_size_t(); UG2 = nondet_size_t();
-%(decls)s
 %(pre)s
     %(call)s;
     __CPROVER_assert(0, "canary: postcondition point reachable");
 }
-""" % dict(fn=fn, call=call, decls=decls, pre=pre)
+""" % dict(fn=fn, call=call, pre=pre)
 
+
+UF_MODEL_ASSUMPTIONS = [
+    "std::vector<size_t> modelled as (buffer, length, ghost capacity); resize(n[, v]) keeps the first min(old, n) elements and "
+    "sets new ones to v (0 by default); std::iota writes v0 + i; reallocation is not modelled (growth <= ghost capacity is a "
+    "stated precondition) -- contracts fsl_vsz_resize / fsl_vsz_iota in models/basin.h are trusted",
+]
 
 G_UF_FIND = Group(
     name="basin.uf.find", units=[uf_find], extra_c=[MODEL_H],
     harness=_h("uf_find", "size_t r = uf_find(UF_ARGS, nondet_size_t(), nondet_size_t(), nondet_size_t())"),
-    entry="h_uf_find", enforce="uf_find", loop_contracts=True, backend="cvc5", timeout=600, min_obligations=30,
+    entry="h_uf_find", enforce="uf_find", loop_contracts=True, backend="cvc5", timeout=900, min_obligations=30,
     clause="union_find::find terminates (DEPTH decreases), returns the class representative, and path compression leaves the "
            "abstract partition (ROOT) and the representation invariant intact")
+G_UF_MERGE = Group(
+    name="basin.uf.merge", units=[uf_find, uf_link, uf_merge], extra_c=[MODEL_H],
+    harness=_h("uf_merge", "uf_merge(UF_ARGS, nondet_size_t(), nondet_size_t())"),
+    entry="h_uf_merge", enforce="uf_merge", replace=["uf_find", "uf_link"], backend="cvc5", timeout=1800, min_obligations=30,
+    clause="union_find::merge unites exactly the classes of x and y: an arbitrary element gets the merged representative iff its "
+           "old representative was one of the two, keeps it otherwise; the structure stays a forest representing that partition "
+           "(composition of the contracts of find, find and the linking block)")
+G_UF_LINK = [
+    Group(name="basin.uf.link.%s" % l, units=[make_uf_link(l)], extra_c=[MODEL_H],
+          harness=_h("uf_link", "uf_link(UF_ARGS, nondet_size_t(), nondet_size_t(), nondet_size_t(), nondet_size_t())"),
+          entry="h_uf_link", enforce="uf_link", backend="cvc5", timeout=1800, min_obligations=30,
+          clause="union_find::merge, the linking block `if (x != y) {...}` on two different roots, lemma `%s` of its contract (%s): one root "
+                 "becomes the parent of the other whatever the ranks say; a consistent new ROOT/DEPTH assignment exists" % (l, ", ".join(UF_LINK_LEMMAS[l])))
+    for l in UF_LINK_LEMMAS]
+G_UF_RESIZE = Group(
+    name="basin.uf.resize", units=[uf_resize], extra_c=[MODEL_H],
+    harness=_h("uf_resize", "uf_resize(UF_ARGS, nondet_size_t())"),
+    entry="h_uf_resize", enforce="uf_resize", replace=["fsl_vsz_resize", "fsl_vsz_iota"], backend="cvc5", timeout=300, min_obligations=10,
+    clause="union_find::resize(n) yields n singleton classes (parent[g] == g for every g < n), whatever the previous contents")
+G_UF_CLEAR = Group(
+    name="basin.uf.clear", units=[uf_resize, uf_clear], extra_c=[MODEL_H],
+    harness=_h("uf_clear", "uf_clear(UF_ARGS)"),
+    entry="h_uf_clear", enforce="uf_clear", replace=["uf_resize"], backend="cvc5", timeout=300, min_obligations=5,
+    clause="union_find::clear() keeps size() and yields singleton classes with rank 0, whatever the previous contents")
+G_UF_PUSH = Group(
+    name="basin.uf.push_back", units=[uf_push_back], extra_c=[MODEL_H],
+    harness=_h("uf_push_back", "uf_push_back(UF_ARGS, nondet_size_t())"),
+    entry="h_uf_push_back", enforce="uf_push_back", backend="cvc5", timeout=300, min_obligations=10,
+    clause="union_find::push_back(c) appends one element to the class of c (or as a new singleton when c is the new index)")
 
-GROUPS = {"C15": [G_UF_FIND]}
+
+# --------------------------------------------------------------------------- basin_graph::compute_tree_kruskal
+# vocabulary of the basin_graph object as seen by compute_tree_kruskal (members -> buffers + global lengths)
+KR_VOCAB = [
+    V(r"basins_count\(\)", "nbasins"),
+    V(r"m_edges\.size\(\)", "m_edges_n"),
+    V(r"m_tree\.size\(\)", "m_tree_n"),
+    V(r"m_tree\.reserve\(([^;]*)\);", r"FSL_RESERVE(\1);"),
+    V(r"m_tree\.clear\(\)", "m_tree_n = 0"),
+    V(r"m_tree\.push_back\(([^()]+)\)", r"FSL_VSZ_PUSH(m_tree, m_tree_n, m_tree_cap, \1)"),
+    V(r"m_edges_indices\.resize\(([^()]+)\)", r"fsl_vsz_resize_k(m_edges_indices, &m_edges_indices_n, m_edges_indices_cap, \1, 0)"),
+    V(r"std::iota\(m_edges_indices\.begin\(\),\s*m_edges_indices\.end\(\),\s*([^,()]+)\)", r"fsl_vsz_iota_k(m_edges_indices, m_edges_indices_n, \1)"),
+    V(r"m_basins_uf\.find\(([^()]+)\)", r"uf_find(UF_ARGS, \1, \1, \1)"),
+    V(r"m_basins_uf\.merge\(", "uf_merge(UF_ARGS, "),
+    V(r"m_basins_uf\.resize\(", "uf_resize(UF_ARGS, "),
+    V(r"m_basins_uf\.clear\(\)", "uf_clear(UF_ARGS)"),
+    V(r"\bm_edges\[(\w+)\]", r"m_edges[FSL_IDX1(\1, m_edges_n)]"),
+]
+KR_PARAMS = "size_t nbasins, struct fsl_edge *m_edges, size_t *m_edges_indices, size_t *m_tree, UF_PARAMS"
+KR_ARGS = "nbasins, m_edges, m_edges_indices, m_tree, UF_ARGS"
+KR_SHAPE = r"""
+__CPROVER_requires(UF_SHAPE)
+__CPROVER_requires(1 <= nbasins && nbasins <= uf_cap)
+__CPROVER_requires(m_edges_n <= FSL_BASIN_NMAX && 1 <= m_edges_cap && m_edges_n <= m_edges_cap && m_edges_cap <= FSL_BASIN_NMAX)
+__CPROVER_requires(__CPROVER_is_fresh(m_edges, m_edges_cap * FSL_EDGE_BYTES))
+/* ghost capacities of the scratch vectors: large enough for this call (reallocation is not modelled) */
+__CPROVER_requires(m_edges_n <= m_edges_indices_cap && m_edges_indices_cap <= FSL_BASIN_NMAX && 1 <= m_edges_indices_cap)
+__CPROVER_requires(m_edges_n <= m_tree_cap && m_tree_cap <= FSL_BASIN_NMAX && 1 <= m_tree_cap)
+__CPROVER_requires(__CPROVER_is_fresh(m_edges_indices, m_edges_indices_cap * 8) && __CPROVER_is_fresh(m_tree, m_tree_cap * 8))
+"""
+KR_PRE = "size_t GT; /* ghost slot of m_tree */\n#define L0(e) (m_edges[(e)].link[0])\n#define L1(e) (m_edges[(e)].link[1])\n"
+
+# the comparator lambda of std::sort
+kruskal_cmp = Unit(
+    name="kruskal_cmp", file=BG_H, anchor=r"void basin_graph<FG>::compute_tree_kruskal\(\)",
+    inner=r"\[&m_edges = m_edges\]\(const size_type& i0, const size_type& i1\)\s*\{",
+    sig="_Bool kruskal_cmp(const struct fsl_edge *m_edges, size_t i0, size_t i1)",
+    rules=[V(r"\bm_edges\[(\w+)\]", r"m_edges[FSL_IDX1(\1, m_edges_n)]")],
+)
+
+H_CMP = r"""
+size_t nondet_size_t(void);
+void h_kruskal_cmp(void)
+{
+    /* three arbitrary edges of an arbitrary edge table; weights are not NaN (pass elevations of finite terrain) */
+    struct fsl_edge tab[3]; m_edges_n = 3;
+    size_t a = nondet_size_t(), b = nondet_size_t(), c = nondet_size_t();
+    __CPROVER_assume(a < 3 && b < 3 && c < 3);
+    __CPROVER_assume(!isnan(tab[0].pass_elevation) && !isnan(tab[1].pass_elevation) && !isnan(tab[2].pass_elevation));
+    _Bool ab = kruskal_cmp(tab, a, b), ba = kruskal_cmp(tab, b, a), bc = kruskal_cmp(tab, b, c), cb = kruskal_cmp(tab, c, b),
+          ac = kruskal_cmp(tab, a, c), ca = kruskal_cmp(tab, c, a), aa = kruskal_cmp(tab, a, a);
+    __CPROVER_assert(!aa, "comparator irreflexive");
+    __CPROVER_assert(!(ab && ba), "comparator asymmetric");
+    __CPROVER_assert(!(ab && bc) || ac, "comparator transitive");
+    __CPROVER_assert(!(!ab && !ba && !bc && !cb) || (!ac && !ca), "incomparability transitive (strict weak order)");
+    /* C15: the scan order is the order of pass elevations */
+    __CPROVER_assert(ab == (tab[a].pass_elevation < tab[b].pass_elevation), "comparator orders edges by pass elevation");
+    __CPROVER_assert(0, "canary: postcondition point reachable");
+}
+"""
+G_KR_CMP = Group(
+    name="basin.kruskal.cmp", units=[kruskal_cmp], extra_c=[MODEL_H], harness=H_CMP, entry="h_kruskal_cmp",
+    backend="sat", timeout=120, min_obligations=5,
+    clause="the comparator given to std::sort in compute_tree_kruskal is a strict weak order on non-NaN weights and orders edge "
+           "indices by pass_elevation (loop-free, bit-precise)")
+
+kruskal_step = Unit(
+    name="kruskal_step", file=BG_H, anchor=r"void basin_graph<FG>::compute_tree_kruskal\(\)",
+    inner=r"for \(size_type edge_idx : m_edges_indices\)\s*\{",
+    sig="void kruskal_step(%s, size_t edge_idx)" % KR_PARAMS,
+    pre=KR_PRE, rules=KR_VOCAB,
+    contract=KR_SHAPE + r"""
+__CPROVER_requires(uf_pn == nbasins && edge_idx < m_edges_n && EDGE_WF(edge_idx, nbasins))
+__CPROVER_requires(m_tree_n < m_tree_cap && GT < m_tree_cap)
+__CPROVER_requires(UG < UF_N && UG2 < UF_N && UF_INV(UG) && UF_DEPTH(UG) < SIZE_MAX)
+__CPROVER_assigns(m_tree_n, __CPROVER_object_whole(m_tree), __CPROVER_object_whole(uf_parent), __CPROVER_object_whole(uf_rank),
+                  __CPROVER_object_whole(UF_ROOTA), __CPROVER_object_whole(UF_DEPTHA))
+/* C15.kruskal.greedy: the edge enters the tree iff its endpoints are in different classes at that moment ... */
+__CPROVER_ensures(m_tree_n == __CPROVER_old(m_tree_n) + ((__CPROVER_old(UF_ROOT(L0(edge_idx))) != __CPROVER_old(UF_ROOT(L1(edge_idx)))) ? 1 : 0))
+__CPROVER_ensures(m_tree_n > __CPROVER_old(m_tree_n) ==> m_tree[__CPROVER_old(m_tree_n)] == edge_idx)
+__CPROVER_ensures(GT < __CPROVER_old(m_tree_n) ==> m_tree[GT] == __CPROVER_old(m_tree[GT]))
+/* ... which are then merged (exactly these two classes: an arbitrary element changes class iff it was in one of them) */
+__CPROVER_ensures(UF_ROOT(L0(edge_idx)) == UF_ROOT(L1(edge_idx)))
+__CPROVER_ensures(UF_ROOT(UG) == ((__CPROVER_old(UF_ROOT(UG)) == __CPROVER_old(UF_ROOT(L0(edge_idx))) || __CPROVER_old(UF_ROOT(UG)) == __CPROVER_old(UF_ROOT(L1(edge_idx)))) ? UF_ROOT(L0(edge_idx)) : __CPROVER_old(UF_ROOT(UG))))
+__CPROVER_ensures(UF_ROOT(UG2) == ((__CPROVER_old(UF_ROOT(UG2)) == __CPROVER_old(UF_ROOT(L0(edge_idx))) || __CPROVER_old(UF_ROOT(UG2)) == __CPROVER_old(UF_ROOT(L1(edge_idx)))) ? UF_ROOT(L0(edge_idx)) : __CPROVER_old(UF_ROOT(UG2))))
+__CPROVER_ensures(UF_INV(UG) && UF_DEPTH(UG) <= __CPROVER_old(UF_DEPTH(UG)) + 1 && uf_pn == nbasins)
+""",
+)
+
+KR_INV_BASE = "m_edges_indices_n == m_edges_n && uf_pn == nbasins && uf_rn == nbasins && UF_INV(UG) && UF_DEPTH(UG) <= k"
+KR_LEMMAS = {
+    # |tree| <= number of edges scanned, every entry is an edge index
+    "tree": dict(inv="m_tree_n <= k && (GT < m_tree_n ==> m_tree[GT] < m_edges_n)",
+                 ens=["m_tree_n <= m_edges_n", "GT < m_tree_n ==> m_tree[GT] < m_edges_n"]),
+    # every edge of the graph has been scanned and its endpoints are in one class of the final partition
+    "classes": dict(inv="((KGE < m_edges_n && KPOS < k) ==> UF_ROOT(UG) == UF_ROOT(UG2))",
+                    ens=["KGE < m_edges_n ==> UF_ROOT(L0(KGE)) == UF_ROOT(L1(KGE))", "UF_INV(UG) && uf_pn == nbasins"]),
+}
+
+
+def make_kruskal(lemma=None):
+    ls = list(KR_LEMMAS) if lemma is None else [lemma]
+    inv = "(" + " && ".join([KR_INV_BASE] + [KR_LEMMAS[l]["inv"] for l in ls]) + ")"
+    ens = "".join("__CPROVER_ensures(%s)\n" % e for l in ls for e in KR_LEMMAS[l]["ens"])
+    return Unit(
+        name="kruskal", file=BG_H, anchor=r"void basin_graph<FG>::compute_tree_kruskal\(\)",
+        sig="void kruskal(%s)" % KR_PARAMS,
+        rules=[
+            # std::sort with the comparator lambda -> the trusted sort model (the lambda itself is unit kruskal_cmp)
+            R(r"std::sort\(m_edges_indices\.begin\(\),\s*m_edges_indices\.end\(\),\s*\[&m_edges = m_edges\][^{]*\{[^}]*\}\)",
+              "fsl_sort_edges(m_edges_indices, m_edges_indices_n, m_edges, m_edges_n)", 1),
+            R(r"for \(size_type edge_idx : m_edges_indices\)", "for (size_t k = 0; k < m_edges_indices_n; ++k)", 1),
+            # loop body outlined as unit kruskal_step; the element read instantiates (a) the sort model's forall-postcondition
+            # "every entry is an edge index" and (b) the input well-formedness of that edge
+            RB(r"for \(size_t k = 0; k < m_edges_indices_n; \+\+k\)",
+               "{ size_t e_ = m_edges_indices[FSL_IDX1(k, m_edges_indices_n)]; FSL_PRE(e_ < m_edges_n && EDGE_WF(e_, nbasins)); "
+               "kruskal_step(%s, e_); }" % KR_ARGS),
+        ] + KR_VOCAB,
+        contract=KR_SHAPE + r"""
+/* ghosts: an arbitrary tree slot GT, two positions SP1 < SP2 of the sorted sequence, an arbitrary edge KGE whose endpoints
+ * are the ghost union-find elements UG, UG2 */
+__CPROVER_requires(GT < m_tree_cap && SP1 < m_edges_indices_cap && SP2 < m_edges_indices_cap)
+__CPROVER_requires(UG < nbasins && UG2 < nbasins && (KGE < m_edges_n ==> (UG == L0(KGE) && UG2 == L1(KGE))))
+/* NOTHING is required of the scratch members m_tree, m_edges_indices, m_basins_uf (C09: per-call reset) */
+__CPROVER_assigns(m_tree_n, m_edges_indices_n, uf_pn, uf_rn, KPOS, __CPROVER_object_whole(m_tree), __CPROVER_object_whole(m_edges_indices),
+                  __CPROVER_object_whole(uf_parent), __CPROVER_object_whole(uf_rank), __CPROVER_object_whole(UF_ROOTA), __CPROVER_object_whole(UF_DEPTHA))
+""" + ens,
+        loops={0: r"""
+__CPROVER_assigns(k, m_tree_n, __CPROVER_object_whole(m_tree), __CPROVER_object_whole(uf_parent), __CPROVER_object_whole(uf_rank),
+                  __CPROVER_object_whole(UF_ROOTA), __CPROVER_object_whole(UF_DEPTHA))
+__CPROVER_loop_invariant(k <= m_edges_indices_n)
+__CPROVER_loop_invariant(%s)
+__CPROVER_decreases(m_edges_indices_n - k)
+""" % inv})
+
+
+kruskal = make_kruskal()
+
+
+def _hk(fn, call):
+    return r"""
+size_t nondet_size_t(void); _Bool nondet_bool(void); double nondet_double(void);
+void h_%(fn)s(void)
+{
+    size_t *uf_parent, *uf_rank, *UF_ROOTA, *UF_DEPTHA, *m_edges_indices, *m_tree; struct fsl_edge *m_edges;
+    /* scratch pre-state is arbitrary (C09) */
+    uf_pn = nondet_size_t(); uf_rn = nondet_size_t(); uf_cap = nondet_size_t();
+    m_edges_n = nondet_size_t(); m_edges_cap = nondet_size_t(); m_tree_n = nondet_size_t(); m_tree_cap = nondet_size_t();
+    m_edges_indices_n = nondet_size_t(); m_edges_indices_cap = nondet_size_t();
+    UG = nondet_size_t(); UG2 = nondet_size_t(); GT = nondet_size_t(); SP1 = nondet_size_t(); SP2 = nondet_size_t();
+    KGE = nondet_size_t(); KPOS = nondet_size_t();
+    size_t nbasins = nondet_size_t();
+    %(call)s;
+    __CPROVER_assert(0, "canary: postcondition point reachable");
+}
+""" % dict(fn=fn, call=call)
+
+
+G_KR_STEP = Group(
+    name="basin.kruskal.step", units=[uf_find, uf_merge, kruskal_step], extra_c=[MODEL_H],
+    harness=_hk("kruskal_step", "kruskal_step(%s, nondet_size_t())" % KR_ARGS),
+    entry="h_kruskal_step", enforce="kruskal_step", replace=["uf_find", "uf_merge"], backend="cvc5", timeout=900, min_obligations=30,
+    clause="one iteration of Kruskal's loop: the scanned edge enters m_tree iff its endpoints are in different union-find classes at "
+           "that moment; exactly those two classes are then merged; earlier tree entries are untouched")
+G_KR_LOOP = [
+    Group(name="basin.kruskal.loop.%s" % l, units=[uf_resize, uf_clear, kruskal_step, make_kruskal(l)], extra_c=[MODEL_H],
+          harness=_hk("kruskal", "kruskal(%s)" % KR_ARGS), entry="h_kruskal", enforce="kruskal",
+          replace=["uf_resize", "uf_clear", "kruskal_step", "fsl_vsz_resize_k", "fsl_vsz_iota_k", "fsl_sort_edges"],
+          loop_contracts=True, backend="cvc5", timeout=2400, min_obligations=30,
+          clause="compute_tree_kruskal on ARBITRARY scratch pre-state (m_tree, m_edges_indices, union-find havocked: per-call reset, C09), lemma `%s`: %s"
+                 % (l, {"tree": "|tree| <= number of edges scanned and every entry is an edge index",
+                        "classes": "the union-find is re-initialised to singletons and, after the scan, the endpoints of every edge are in one class"}[l]))
+    for l in KR_LEMMAS]
+
+# --------------------------------------------------------------------------- mst_sink_resolver: re-routing of pits (C01)
+def _sink_constants():
+    """static constexpr std::uint8_t outflow / inflow of the operator implementation, read from the class on every run"""
+    import os, re
+    from fv import extract as ex
+    src = ex.strip_comments(open(os.path.join(ex.REPO, SINK_H)).read())
+    out = {}
+    for m in re.finditer(r"static constexpr std::uint8_t (outflow|inflow)\s*=\s*(\d+);", src):
+        out[m.group(1)] = int(m.group(2))
+    if set(out) != {"outflow", "inflow"}:
+        raise ex.ExtractionError("sink resolver: outflow/inflow constants not found")
+    return out
+
+
+def _sink_defs():
+    c = _sink_constants()
+    return ("#define outflow %d\n#define inflow %d\n" % (c["outflow"], c["inflow"]) +
+            "#define receivers(i, j) m_receivers[FSL_IDX2(i, j, gsize, 1)]\n"
+            "#define dist2receivers(i, j) m_receivers_distance[FSL_IDX2(i, j, gsize, 1)]\n")
+
+
+SB_PARAMS = ("size_t gsize, size_t nbasins, size_t *m_receivers, double *m_receivers_distance, const size_t *basins, const size_t *pits, "
+             "const struct fsl_edge *m_edges, const size_t *m_tree, const double *elevation")
+SB_ARGS = "gsize, nbasins, m_receivers, m_receivers_distance, basins, pits, m_edges, m_tree, elevation"
+SB_VOCAB = [
+    V(r"basin_graph\.edges\(\)\[(\w+)\]", r"m_edges[FSL_IDX1(\1, m_edges_n)]"),
+    V(r"\bpits\[((?:[^\[\]]|\[[^\[\]]*\])+)\]", r"pits[FSL_IDX1(\1, nbasins)]"),
+    V(r"\bcontinue;", "return; /* `continue` of the outlined loop body */"),
+]
+SB_PRE = r"""
+size_t SG, SG2;   /* ghost nodes */
+size_t SGT, SE;   /* ghost slot of the tree and the edge index stored there */
+#define REC(x) m_receivers[(x)]
+#define DIST(x) m_receivers_distance[(x)]
+#define SAME_D(x, y) ((x) == (y) || (isnan(x) && isnan(y)))
+#define E_OUT(e) (m_edges[(e)].pass[SB_OUTFLOW])
+#define E_IN(e) (m_edges[(e)].pass[SB_INFLOW])
+#define E_BIN(e) (m_edges[(e)].link[SB_INFLOW])
+#define E_BOUT(e) (m_edges[(e)].link[SB_OUTFLOW])
+#define E_PIT(e) (pits[E_BIN(e)])
+/* input well-formedness of an oriented tree edge with a pass (producers: connect_basins, orient_edges, compute_basins):
+ * two different basins, the pass nodes are grid nodes lying in the basin of their side, the pit is the outlet of the inflow basin */
+#define E_WF(e) (E_BIN(e) < nbasins && E_BOUT(e) < nbasins && E_BIN(e) != E_BOUT(e) && E_IN(e) < gsize && E_OUT(e) < gsize \
+    && basins[E_IN(e)] == E_BIN(e) && basins[E_OUT(e)] == E_BOUT(e) && E_PIT(e) < gsize && basins[E_PIT(e)] == E_BIN(e))
+/* C01 for the pit of tree edge e, from the property statement: the re-routed pit is not its own receiver, and following
+ * receivers from it leaves its basin after one or two steps (pit -> [pass node on its side ->] pass node across) */
+#define DRAINS_OUT(e) (REC(E_PIT(e)) != E_PIT(e) && REC(E_PIT(e)) < gsize \
+    && (basins[REC(E_PIT(e))] != E_BIN(e) || (REC(REC(E_PIT(e))) < gsize && basins[REC(REC(E_PIT(e)))] != E_BIN(e))))
+"""
+SB_SHAPE = r"""
+__CPROVER_requires(0 < gsize && gsize <= FSL_BASIN_NMAX && 0 < nbasins && nbasins <= gsize)
+__CPROVER_requires(0 < m_edges_n && m_edges_n <= FSL_BASIN_NMAX && m_tree_n <= FSL_BASIN_NMAX && 0 < m_tree_cap && m_tree_n <= m_tree_cap && m_tree_cap <= FSL_BASIN_NMAX)
+__CPROVER_requires(__CPROVER_is_fresh(m_receivers, gsize * 8) && __CPROVER_is_fresh(m_receivers_distance, gsize * 8))
+__CPROVER_requires(__CPROVER_is_fresh(basins, gsize * 8) && __CPROVER_is_fresh(pits, nbasins * 8) && __CPROVER_is_fresh(elevation, gsize * 8))
+__CPROVER_requires(__CPROVER_is_fresh(m_edges, m_edges_n * FSL_EDGE_BYTES) && __CPROVER_is_fresh(m_tree, m_tree_cap * 8))
+"""
+
+
+def make_sb_step(name, anchor, extra_rules=(), loops=None):
+    c = _sink_constants()
+    return Unit(
+        name=name, file=SINK_H, anchor=anchor,
+        inner=r"for \(size_type edge_idx : basin_graph\.tree\(\)\)\s*\{",
+        sig="void %s(%s, size_t edge_idx)" % (name, SB_PARAMS),
+        pre=SB_PRE.replace("SB_OUTFLOW", str(c["outflow"])).replace("SB_INFLOW", str(c["inflow"])), defs=_sink_defs(),
+        rules=[R(r"auto& edge = (basin_graph\.edges\(\)\[edge_idx\]);", r"const struct fsl_edge edge = \1;", 1)] + list(extra_rules) + SB_VOCAB,
+        loops=loops or {},
+        contract=SB_SHAPE + r"""
+__CPROVER_requires(edge_idx < m_edges_n && SG < gsize && SG2 < gsize)
+/* the edge is either an outer-basin link without a pass (skipped) or a well-formed oriented pass */
+__CPROVER_requires(E_OUT(edge_idx) == SIZE_MAX || E_WF(edge_idx))
+__CPROVER_assigns(__CPROVER_object_whole(m_receivers), __CPROVER_object_whole(m_receivers_distance))
+__CPROVER_ensures(E_OUT(edge_idx) != SIZE_MAX ==> DRAINS_OUT(edge_idx))
+/* frame: only nodes of the inflow basin are re-routed */
+__CPROVER_ensures((E_OUT(edge_idx) == SIZE_MAX || basins[SG] != E_BIN(edge_idx)) ==> (REC(SG) == __CPROVER_old(REC(SG)) && SAME_D(DIST(SG), __CPROVER_old(DIST(SG)))))
+__CPROVER_ensures((E_OUT(edge_idx) == SIZE_MAX || basins[SG2] != E_BIN(edge_idx)) ==> (REC(SG2) == __CPROVER_old(REC(SG2)) && SAME_D(DIST(SG2), __CPROVER_old(DIST(SG2)))))
+""")
+
+
+def make_sb_outer(name, anchor, step):
+    # DR: DRAINS_OUT for the ghost edge SE with its pit SG; SG2 stands for "the receiver of the pit" (the clause is proved for every
+    # SG2, in particular for SG2 == REC(SG), which gives DRAINS_OUT(SE) literally)
+    dr = ("(REC(SG) != SG && REC(SG) < gsize && (basins[REC(SG)] != E_BIN(SE) || (REC(SG) == SG2 ==> (REC(SG2) < gsize && basins[REC(SG2)] != E_BIN(SE)))))")
+    return Unit(
+        name=name, file=SINK_H, anchor=anchor,
+        sig="void %s(%s)" % (name, SB_PARAMS), defs=_sink_defs(),
+        rules=[R(r"(?:const )?auto& (?:basin_graph|receivers|dist2receivers|pits) = [^;]*;", "", 4),
+               R(r"for \(size_type edge_idx : basin_graph\.tree\(\)\)", "for (size_t k = 0; k < m_tree_n; ++k)", 1),
+               # the element read instantiates the input well-formedness of the tree (entries are edge indices; oriented edges
+               # with a pass are well-formed; different tree edges flow into different basins: the tree is oriented, every basin
+               # but the root has exactly one edge on which it is the inflow side)
+               RB(r"for \(size_t k = 0; k < m_tree_n; \+\+k\)",
+                  "{ size_t e_ = m_tree[FSL_IDX1(k, m_tree_n)]; FSL_PRE(e_ < m_edges_n && (E_OUT(e_) == SIZE_MAX || E_WF(e_))); "
+                  "FSL_PRE(SGT >= m_tree_n || k == SGT || E_OUT(SE) == SIZE_MAX || E_OUT(e_) == SIZE_MAX || E_BIN(SE) != E_BIN(e_)); "
+                  "%s(%s, e_); }" % (step, SB_ARGS))] + SB_VOCAB,
+        contract=SB_SHAPE + r"""
+__CPROVER_requires(SG < gsize && SG2 < gsize)
+/* ghosts: tree slot SGT, its edge SE (instance of the input well-formedness), the pit SG of its inflow basin, any node SG2 */
+__CPROVER_requires(SGT < m_tree_n ==> (SE == m_tree[SGT] && SE < m_edges_n && (E_OUT(SE) == SIZE_MAX || (E_WF(SE) && SG == E_PIT(SE)))))
+__CPROVER_assigns(__CPROVER_object_whole(m_receivers), __CPROVER_object_whole(m_receivers_distance))
+/* C01: the pit of every tree edge with a pass drains out of its basin when the function returns */
+__CPROVER_ensures((SGT < m_tree_n && E_OUT(SE) != SIZE_MAX) ==> %(DR)s)
+""" % dict(DR=dr),
+        loops={0: r"""
+__CPROVER_assigns(k, __CPROVER_object_whole(m_receivers), __CPROVER_object_whole(m_receivers_distance))
+__CPROVER_loop_invariant(k <= m_tree_n)
+__CPROVER_loop_invariant((SGT < k && E_OUT(SE) != SIZE_MAX) ==> %(DR)s)
+__CPROVER_decreases(m_tree_n - k)
+""" % dict(DR=dr)})
+
+
+H_SB = r"""
+size_t nondet_size_t(void); _Bool nondet_bool(void); double nondet_double(void);
+void h_%(fn)s(void)
+{
+    size_t gsize = nondet_size_t(), nbasins = nondet_size_t();
+    size_t *m_receivers; double *m_receivers_distance; const size_t *basins, *pits, *m_tree; const struct fsl_edge *m_edges; const double *elevation;
+    m_edges_n = nondet_size_t(); m_tree_n = nondet_size_t(); m_tree_cap = nondet_size_t();
+    SG = nondet_size_t(); SG2 = nondet_size_t(); SGT = nondet_size_t(); SE = nondet_size_t();
+    %(call)s;
+    __CPROVER_assert(0, "canary: postcondition point reachable");
+}
+"""
+SB_ANCHOR = r"::\s*update_routes_sinks_basic\("
+sb_step = make_sb_step("sinks_basic_step", SB_ANCHOR)
+sb_outer = make_sb_outer("sinks_basic", SB_ANCHOR, "sinks_basic_step")
+G_SB_STEP = Group(
+    name="basin.sinks.basic.step", units=[sb_step], extra_c=[MODEL_H],
+    harness=H_SB % dict(fn="sinks_basic_step", call="sinks_basic_step(%s, nondet_size_t())" % SB_ARGS),
+    entry="h_sinks_basic_step", enforce="sinks_basic_step", backend="cvc5", timeout=600, min_obligations=20,
+    clause="update_routes_sinks_basic, one tree edge with a pass: afterwards the pit of the inflow basin is not its own receiver and "
+           "following receivers from it leaves the basin within two steps; only nodes of the inflow basin are re-routed")
+G_SB_LOOP = Group(
+    name="basin.sinks.basic.loop", units=[sb_step, sb_outer], extra_c=[MODEL_H],
+    harness=H_SB % dict(fn="sinks_basic", call="sinks_basic(%s)" % SB_ARGS),
+    entry="h_sinks_basic", enforce="sinks_basic", replace=["sinks_basic_step"], loop_contracts=True, backend="cvc5", timeout=1800, min_obligations=20,
+    clause="update_routes_sinks_basic, whole loop over the tree (any length): on return the pit of EVERY tree edge with a pass drains "
+           "out of its basin (later edges re-route other basins only)")
+
+
+# --------------------------------------------------------------------------- basin_graph::connect_basins
+from spec.graphmodel import is_masked, is_base_level, ghost_decls, neighbors_contract
+
+CB_PARAMS = ("size_t gsize, size_t nbasins_, const size_t *basins_a, const size_t *m_receivers, const size_t *dfs_indices, const size_t *outlets, "
+             "const _Bool *m_mask, _Bool m_mask_initialized, const _Bool *base_level, const double *elevation, "
+             "struct fsl_edge *m_edges, size_t *m_edge_positions, size_t *m_edge_positions_tmp, size_t *CB_TSLOT")
+CB_ARGS = ("gsize, nbasins_, basins_a, m_receivers, dfs_indices, outlets, m_mask, m_mask_initialized, base_level, elevation, "
+           "m_edges, m_edge_positions, m_edge_positions_tmp, CB_TSLOT")
+
+
+def cb_pre(nb):
+    return ghost_decls(nb) + neighbors_contract(nb) + r"""
+#define CB_MASKED(x) (m_mask_initialized && m_mask[(x)])
+#define SAME_D(x, y) ((x) == (y) || (isnan(x) && isnan(y)))
+#define POS(b) (m_edge_positions[(b)])
+/* forall-invariant of the edge-position scratch table (ghost basin GB; instantiated where the table is read): a defined
+ * position is the index of the edge (current_basin, b), and b is recorded in m_edge_positions_tmp (slot CB_TSLOT[b]) so that the
+ * next change of basin resets it */
+#define CB_INV_POS(b) (POS(b) == SIZE_MAX || (POS(b) < m_edges_n && m_edges[POS(b)].link[0] == current_basin && m_edges[POS(b)].link[1] == (b) \
+    && CB_TSLOT[(b)] < m_edge_positions_tmp_n && m_edge_positions_tmp[CB_TSLOT[(b)]] == (b)))
+/* C15.connect: every stored edge is either a link root -> outer basin without a pass, or carries a pass whose elevation is
+ * the larger elevation of its two pass nodes (second pass node lies in the second basin) */
+#define CB_EDGE_OK(e) (m_edges[(e)].link[1] < nbasins_ && (m_edges[(e)].pass[0] == SIZE_MAX \
+    ? (m_edges[(e)].pass[1] == SIZE_MAX && m_edges[(e)].pass_elevation == -DBL_MAX && m_edges[(e)].link[0] == m_root && m_root != SIZE_MAX \
+       && outlets[m_edges[(e)].link[1]] < gsize && base_level[outlets[m_edges[(e)].link[1]]] != 0) \
+    : (m_edges[(e)].pass[0] < gsize && m_edges[(e)].pass[1] < gsize && m_edges[(e)].link[0] < nbasins_ \
+       && SAME_D(m_edges[(e)].pass_elevation, FSL_MAX(elevation[m_edges[(e)].pass[0]], elevation[m_edges[(e)].pass[1]])) \
+       && m_edges[(e)].link[1] == basins_a[m_edges[(e)].pass[1]])))
+/* the root is undefined or an OUTER basin of the current tables */
+#define CB_ROOT_OK (m_root == SIZE_MAX || (m_root < nbasins_ && outlets[m_root] < gsize && base_level[outlets[m_root]] != 0))
+#define CB_OUTER_OUTLET(x) (!CB_MASKED(x) && m_receivers[(x)] == (x) && base_level[(x)] != 0)
+size_t GEDGE;  /* ghost edge index */
+size_t GPOS;   /* ghost position in dfs_indices */
+/* read-only inputs with their well-formedness instantiated on read (producers: compute_basins C19, C06 order contract) */
+static inline size_t cb_basins(size_t gsize, size_t nbasins_, const size_t *basins_a, const size_t *m_receivers, const size_t *outlets,
+                               const _Bool *m_mask, _Bool m_mask_initialized, size_t i)
+{
+    size_t b = basins_a[FSL_IDX1(i, gsize)];
+    FSL_PRE(CB_MASKED(i) || b < nbasins_);
+    FSL_PRE(!(!CB_MASKED(i) && m_receivers[i] == i) || outlets[b] == i);
+    return b;
+}
+static inline size_t cb_outlets(size_t gsize, size_t nbasins_, const size_t *outlets, size_t b)
+{
+    size_t o = outlets[FSL_IDX1(b, nbasins_)];
+    FSL_PRE(o < gsize);
+    return o;
+}
+static inline size_t cb_pos_rd(size_t nbasins_, const struct fsl_edge *m_edges, const size_t *m_edge_positions, const size_t *m_edge_positions_tmp,
+                               const size_t *CB_TSLOT, size_t b)
+{
+    size_t v = m_edge_positions[FSL_IDX1(b, m_edge_positions_n)];
+    FSL_PRE(CB_INV_POS(b));
+    return v;
+}
+static inline size_t cb_tmp_rd(size_t nbasins_, const size_t *m_edge_positions_tmp, size_t t)
+{
+    size_t v = m_edge_positions_tmp[FSL_IDX1(t, m_edge_positions_tmp_n)];
+    FSL_PRE(v < nbasins_);
+    return v;
+}
+"""
+
+
+CB_DEFS = "#define receivers(i, j) m_receivers[FSL_IDX2(i, j, gsize, 1)]\n"
+CB_VOCAB = [
+    V(r"basins_count\(\)", "nbasins_"),
+    V(r"m_flow_graph_impl\.is_masked\(", "is_masked(m_mask, m_mask_initialized, gsize, "),
+    V(r"m_flow_graph_impl\.is_base_level\(", "is_base_level(base_level, gsize, "),
+    V(r"outlets\(\)\[(\w+)\]", r"cb_outlets(gsize, nbasins_, outlets, \1)"),
+    V(r"\bbasins\(([^()]+)\)", r"cb_basins(gsize, nbasins_, basins_a, m_receivers, outlets, m_mask, m_mask_initialized, \1)"),
+    V(r"m_edges\.clear\(\)", "m_edges_n = 0"),
+    V(r"m_edges\.reserve\(([^;]*)\);", r"FSL_RESERVE(\1);"),
+    V(r"m_edges\.size\(\)", "m_edges_n"),
+    V(r"m_edges\.push_back\(\s*edge::make_edge\(([^()]*)\)\s*\)", r"FSL_EDGES_PUSH(cb_make_edge(\1))"),
+    V(r"m_edges\.push_back\(\s*(\{[^;]*\})\s*\)", r"FSL_EDGES_PUSH(((struct fsl_edge)\1))"),
+    V(r"=\s*edge\s*\{", "= (struct fsl_edge){"),
+    V(r"\bm_edges\[(\w+)\]", r"m_edges[FSL_IDX1(\1, m_edges_n)]"),
+    V(r"m_edge_positions\.resize\(([^()]+)\)", r"fsl_vsz_resize_b(m_edge_positions, &m_edge_positions_n, m_edge_positions_cap, \1, 0)"),
+    V(r"std::fill\(m_edge_positions\.begin\(\),\s*m_edge_positions\.end\(\),\s*([^()]+)\)", r"fsl_vsz_fill_b(m_edge_positions, m_edge_positions_n, \1)"),
+    V(r"m_edge_positions_tmp\.reserve\(([^;]*)\);", r"FSL_RESERVE(\1);"),
+    V(r"m_edge_positions_tmp\.clear\(\)", "m_edge_positions_tmp_n = 0"),
+    V(r"m_edge_positions_tmp\.push_back\(([^()]+)\)", r"FSL_TMP_PUSH(\1)"),
+    V(r"\bm_edge_positions\[(\w+)\]\s*=(?!=)", r"m_edge_positions[FSL_IDX1(\1, m_edge_positions_n)] ="),
+    V(r"\bm_edge_positions\[(\w+)\]", r"cb_pos_rd(nbasins_, m_edges, m_edge_positions, m_edge_positions_tmp, CB_TSLOT, \1)"),
+    V(r"\bconst auto (idfs|irec)\b", r"const size_t \1"),
+]
+CB_LOCALS = "    const size_t nbasins = nbasins_; const size_t init_idx = SIZE_MAX; /* locals of the enclosing function (constants) */\n"
+CB_SHAPE = r"""
+__CPROVER_requires(0 < gsize && gsize <= FSL_BASIN_NMAX && gsize == GSIZE && 0 < nbasins_ && nbasins_ <= gsize)
+__CPROVER_requires(__CPROVER_is_fresh(basins_a, gsize * 8) && __CPROVER_is_fresh(m_receivers, gsize * 8) && __CPROVER_is_fresh(dfs_indices, gsize * 8))
+__CPROVER_requires(__CPROVER_is_fresh(outlets, nbasins_ * 8) && __CPROVER_is_fresh(m_mask, gsize) && __CPROVER_is_fresh(base_level, gsize))
+__CPROVER_requires(__CPROVER_is_fresh(elevation, gsize * 8) && __CPROVER_is_fresh(CB_TSLOT, nbasins_ * 8))
+__CPROVER_requires(1 <= m_edges_cap && m_edges_cap <= FSL_BASIN_NMAX && m_edges_n <= m_edges_cap && __CPROVER_is_fresh(m_edges, m_edges_cap * FSL_EDGE_BYTES))
+__CPROVER_requires(nbasins_ <= m_edge_positions_cap && m_edge_positions_cap <= FSL_BASIN_NMAX && m_edge_positions_n <= m_edge_positions_cap
+                   && __CPROVER_is_fresh(m_edge_positions, m_edge_positions_cap * 8))
+__CPROVER_requires(1 <= m_edge_positions_tmp_cap && m_edge_positions_tmp_cap <= FSL_BASIN_NMAX && m_edge_positions_tmp_n <= m_edge_positions_tmp_cap
+                   && __CPROVER_is_fresh(m_edge_positions_tmp, m_edge_positions_tmp_cap * 8))
+__CPROVER_requires(GB < nbasins_)
+"""
+CB_ANCHOR = r"void basin_graph<FG>::connect_basins\(const data_array_type& elevation\)"
+
+cb_make_edge = Unit(
+    name="cb_make_edge", file=BG_H, anchor=r"static edge make_edge\(const size_type& from, const size_type& to\)",
+    sig="static inline struct fsl_edge cb_make_edge(size_t from, size_t to)",
+    rules=[R(r"return edge\s*\{", "return (struct fsl_edge){", 1)],
+)
+
+
+def make_cb_switch(nb):
+    return Unit(
+        name="cb_switch", file=BG_H, anchor=CB_ANCHOR, inner=r"if \(current_basin != ibasin\)\s*\{",
+        sig="void cb_switch(%s, size_t w)" % CB_PARAMS, defs=CB_DEFS, body_prefix=CB_LOCALS,
+        rules=[R(r"for \(const auto& ivisited : m_edge_positions_tmp\)\s*\{",
+                 "for (size_t t_ = 0; t_ < m_edge_positions_tmp_n; ++t_)\n{ const size_t ivisited = cb_tmp_rd(nbasins_, m_edge_positions_tmp, t_);", 1)] + CB_VOCAB,
+        contract=CB_SHAPE + r"""
+__CPROVER_requires(m_edge_positions_n == nbasins_ && w < nbasins_)
+/* instances of CB_INV_POS at the ghost basin and at the caller's witness */
+__CPROVER_requires(POS(GB) != SIZE_MAX ==> (CB_TSLOT[GB] < m_edge_positions_tmp_n && m_edge_positions_tmp[CB_TSLOT[GB]] == GB))
+__CPROVER_requires(POS(w) != SIZE_MAX ==> (CB_TSLOT[w] < m_edge_positions_tmp_n && m_edge_positions_tmp[CB_TSLOT[w]] == w))
+__CPROVER_assigns(__CPROVER_object_whole(m_edge_positions), m_edge_positions_tmp_n, current_basin)
+/* jumping to another basin forgets every edge position of the previous one */
+__CPROVER_ensures(POS(GB) == SIZE_MAX && POS(w) == SIZE_MAX && m_edge_positions_tmp_n == 0 && current_basin == ibasin)
+""",
+        loops={0: r"""
+__CPROVER_assigns(t_, __CPROVER_object_whole(m_edge_positions))
+__CPROVER_loop_invariant(t_ <= m_edge_positions_tmp_n)
+__CPROVER_loop_invariant(POS(GB) != SIZE_MAX ==> (t_ <= CB_TSLOT[GB] && CB_TSLOT[GB] < m_edge_positions_tmp_n && m_edge_positions_tmp[CB_TSLOT[GB]] == GB))
+__CPROVER_loop_invariant(POS(w) != SIZE_MAX ==> (t_ <= CB_TSLOT[w] && CB_TSLOT[w] < m_edge_positions_tmp_n && m_edge_positions_tmp[CB_TSLOT[w]] == w))
+__CPROVER_decreases(m_edge_positions_tmp_n - t_)
+"""})
+
+
+CB_STATE_REQ = r"""
+__CPROVER_requires(m_edge_positions_n == nbasins_)
+__CPROVER_requires(CB_INV_POS(GB) && (GEDGE < m_edges_n ==> CB_EDGE_OK(GEDGE)) && CB_ROOT_OK)
+"""
+CB_STATE_ENS = r"""
+__CPROVER_ensures(m_edge_positions_n == nbasins_ && m_edges_n >= __CPROVER_old(m_edges_n))
+__CPROVER_ensures(CB_INV_POS(GB) && (GEDGE < m_edges_n ==> CB_EDGE_OK(GEDGE)) && CB_ROOT_OK)
+"""
+CB_ASSIGNS_EDGES = ("__CPROVER_object_whole(m_edges), m_edges_n, __CPROVER_object_whole(m_edge_positions), __CPROVER_object_whole(m_edge_positions_tmp), "
+                    "m_edge_positions_tmp_n, current_basin, __CPROVER_object_whole(CB_TSLOT)")
+
+
+def make_cb_visit(nb):
+    return Unit(
+        name="cb_visit", file=BG_H, anchor=CB_ANCHOR, inner=r"for \(auto n : grid\.neighbors\(idfs, neighbors\)\)\s*\{",
+        sig="void cb_visit(%s, size_t idfs, double ielev, struct neighbor n)" % CB_PARAMS, defs=CB_DEFS, body_prefix=CB_LOCALS,
+        rules=[RB(r"if \(current_basin != ibasin\)", "{ cb_switch(%s, nbasin); }" % CB_ARGS),
+               V(r"\bcontinue;", "return; /* `continue` of the outlined loop body */")] + CB_VOCAB,
+        contract=CB_SHAPE + CB_STATE_REQ + r"""
+__CPROVER_requires(idfs < gsize && n.idx < gsize && ibasin < nbasins_ && SAME_D(ielev, elevation[idfs]))
+__CPROVER_assigns(""" + CB_ASSIGNS_EDGES + r""")
+""" + CB_STATE_ENS + r"""
+/* C15.connect.lowest_pass, at the moment the adjacent pair (idfs, n) is seen: unless the pair is left to the other side
+ * (the neighbour's basin is an inner basin with a smaller or equal id) the edge (ibasin, basin of n) now exists, its position is
+ * recorded, and its pass elevation is not above max(elevation of the two nodes of this pair) */
+__CPROVER_ensures((!CB_MASKED(n.idx) && basins_a[n.idx] < nbasins_ && outlets[basins_a[n.idx]] < gsize
+                   && (ibasin < basins_a[n.idx] || base_level[outlets[basins_a[n.idx]]] != 0)) ==>
+    (POS(basins_a[n.idx]) != SIZE_MAX && POS(basins_a[n.idx]) < m_edges_n
+     && m_edges[POS(basins_a[n.idx])].link[0] == ibasin && m_edges[POS(basins_a[n.idx])].link[1] == basins_a[n.idx]
+     && m_edges[POS(basins_a[n.idx])].pass[0] != SIZE_MAX
+     && !(FSL_MAX(ielev, elevation[n.idx]) < m_edges[POS(basins_a[n.idx])].pass_elevation)))
+""")
+
+
+def make_cb_node(nb):
+    return Unit(
+        name="cb_node", file=BG_H, anchor=CB_ANCHOR, inner=r"for \(const auto idfs : dfs_indices\)\s*\{",
+        sig="void cb_node(%s, size_t idfs)" % CB_PARAMS, defs=CB_DEFS,
+        body_prefix=CB_LOCALS + "    struct neighbor neighbors[FSL_NBMAX]; size_t neighbors_n;\n",
+        rules=[R(r"for \(auto n : grid\.neighbors\(idfs, neighbors\)\)",
+                 "neighbors_n = grid_neighbors(idfs, neighbors);\nfor (size_t nb_k = 0; nb_k < neighbors_n; ++nb_k)", 1),
+               RB(r"for \(size_t nb_k = 0; nb_k < neighbors_n; \+\+nb_k\)", "{ cb_visit(%s, idfs, ielev, neighbors[nb_k]); }" % CB_ARGS),
+               V(r"\bcontinue;", "return; /* `continue` of the outlined loop body */")] + CB_VOCAB,
+        contract=CB_SHAPE + CB_STATE_REQ + r"""
+__CPROVER_requires(idfs < gsize && (is_inner_basin == 0 || is_inner_basin == 1) && (is_inner_basin ==> ibasin < nbasins_))
+__CPROVER_assigns(m_root, ibasin, is_inner_basin, """ + CB_ASSIGNS_EDGES + r""")
+""" + CB_STATE_ENS + r"""
+__CPROVER_ensures((is_inner_basin == 0 || is_inner_basin == 1) && (is_inner_basin ==> ibasin < nbasins_))
+/* the root is chosen once: an outer outlet defines it if it is still undefined, nothing else ever changes it */
+__CPROVER_ensures(m_root == __CPROVER_old(m_root) || (__CPROVER_old(m_root) == SIZE_MAX && CB_OUTER_OUTLET(idfs)))
+__CPROVER_ensures(CB_OUTER_OUTLET(idfs) ==> m_root != SIZE_MAX)
+""")
+
+
+def make_cb_outer(nb):
+    inv = r"""(m_edge_positions_n == nbasins_ && CB_INV_POS(GB) && (GEDGE < m_edges_n ==> CB_EDGE_OK(GEDGE)) && CB_ROOT_OK
+   && (is_inner_basin == 0 || is_inner_basin == 1) && (is_inner_basin ==> ibasin < nbasins_)
+   && ((GPOS < p_ && dfs_indices[GPOS] < gsize && CB_OUTER_OUTLET(dfs_indices[GPOS])) ==> m_root != SIZE_MAX))"""
+    return Unit(
+        name="connect_basins", file=BG_H, anchor=CB_ANCHOR, sig="void connect_basins(%s)" % CB_PARAMS, defs=CB_DEFS,
+        rules=[R(r"using neighbors_type = [^;]*;", "", 1),
+               R(r"auto nbasins = ", "const size_t nbasins = ", 1),
+               R(r"(?:const )?auto& (?:basins|receivers|dfs_indices|grid) = [^;]*;", "", 4),
+               R(r"neighbors_type neighbors;", "/* neighbour buffer: local of the outlined loop body */", 1),
+               # locals that live across iterations are shared with the outlined loop bodies as globals
+               R(r"size_type ibasin;", "", 1),
+               R(r"size_type current_basin = init_idx;", "current_basin = init_idx;", 1),
+               R(r"bool is_inner_basin = false;", "is_inner_basin = 0;", 1),
+               R(r"for \(const auto idfs : dfs_indices\)", "for (size_t p_ = 0; p_ < gsize; ++p_)", 1),
+               RB(r"for \(size_t p_ = 0; p_ < gsize; \+\+p_\)",
+                  "{ size_t idfs_ = dfs_indices[FSL_IDX1(p_, gsize)]; FSL_PRE(idfs_ < gsize); cb_node(%s, idfs_); }" % CB_ARGS)] + CB_VOCAB,
+        contract=CB_SHAPE + r"""
+__CPROVER_requires(GPOS < gsize)
+/* NOTHING is required of m_root, m_edges, m_edge_positions, m_edge_positions_tmp (C09: the result must not depend on earlier calls) */
+__CPROVER_assigns(m_root, ibasin, is_inner_basin, m_edge_positions_n, """ + CB_ASSIGNS_EDGES + r""")
+/* C15 / C09: on return the root is undefined or an outer basin OF THE CURRENT TABLES, and it is defined as soon as an unmasked
+ * base-level outlet was visited */
+__CPROVER_ensures(CB_ROOT_OK)
+__CPROVER_ensures((dfs_indices[GPOS] < gsize && CB_OUTER_OUTLET(dfs_indices[GPOS])) ==> m_root != SIZE_MAX)
+/* every edge present on return was built in this call: root link or pass with pass_elevation = max of its two pass nodes */
+__CPROVER_ensures(GEDGE < m_edges_n ==> CB_EDGE_OK(GEDGE))
+__CPROVER_ensures(m_edge_positions_n == nbasins_ && CB_INV_POS(GB))
+""",
+        loops={0: r"""
+__CPROVER_assigns(p_, m_root, ibasin, is_inner_basin, """ + CB_ASSIGNS_EDGES + r""")
+__CPROVER_loop_invariant(p_ <= gsize)
+__CPROVER_loop_invariant(%s)
+__CPROVER_decreases(gsize - p_)
+""" % inv})
+
+
+def _hcb(fn, call, nb):
+    init = "".join("    GN[%d].idx = nondet_size_t(); GN[%d].distance = nondet_double();\n" % (k, k) for k in range(nb))
+    return r"""
+size_t nondet_size_t(void); _Bool nondet_bool(void); double nondet_double(void); uint8_t nondet_u8(void);
+void h_%(fn)s(void)
+{
+    size_t gsize = nondet_size_t(), nbasins_ = nondet_size_t();
+    const size_t *basins_a, *m_receivers, *dfs_indices, *outlets; const _Bool *m_mask, *base_level; const double *elevation;
+    _Bool m_mask_initialized = nondet_bool();
+    struct fsl_edge *m_edges; size_t *m_edge_positions, *m_edge_positions_tmp, *CB_TSLOT;
+    /* scratch members and the locals shared with the loop bodies: arbitrary pre-state (C09) */
+    m_root = nondet_size_t(); m_edges_n = nondet_size_t(); m_edges_cap = nondet_size_t();
+    m_edge_positions_n = nondet_size_t(); m_edge_positions_cap = nondet_size_t();
+    m_edge_positions_tmp_n = nondet_size_t(); m_edge_positions_tmp_cap = nondet_size_t();
+    ibasin = nondet_size_t(); current_basin = nondet_size_t(); is_inner_basin = nondet_bool();
+    GSIZE = gsize; G = nondet_size_t(); GN_cnt = nondet_size_t(); GB = nondet_size_t(); GEDGE = nondet_size_t(); GPOS = nondet_size_t();
+%(init)s
+    struct neighbor nn; nn.idx = nondet_size_t(); nn.distance = nondet_double(); nn.status = nondet_u8();
+    %(call)s;
+    __CPROVER_assert(0, "canary: postcondition point reachable");
+}
+""" % dict(fn=fn, call=call, init=init)
+
+
+def cb_groups(nb, tier="quick"):
+    sw, vis, node, outer = make_cb_switch(nb), make_cb_visit(nb), make_cb_node(nb), make_cb_outer(nb)
+    defs = ["FSL_NBMAX=%d" % nb]
+    base = [is_masked, is_base_level, cb_make_edge]
+    return [
+        Group(name="basin.connect.switch", units=base + [sw], extra_c=[MODEL_H], defines=defs,
+              harness=_hcb("cb_switch", "cb_switch(%s, nondet_size_t())" % CB_ARGS, nb), entry="h_cb_switch", enforce="cb_switch",
+              loop_contracts=True, backend="cvc5", timeout=600, min_obligations=20, tier=tier,
+              clause="connect_basins, change of current basin: every recorded edge position is reset (ghost basin), the visited list is emptied"),
+        Group(name="basin.connect.visit", units=base + [sw, vis], extra_c=[MODEL_H], defines=defs,
+              harness=_hcb("cb_visit", "cb_visit(%s, nondet_size_t(), nondet_double(), nn)" % CB_ARGS, nb), entry="h_cb_visit", enforce="cb_visit",
+              replace=["cb_switch"], backend="cvc5", timeout=900, min_obligations=50, tier=tier,
+              clause="connect_basins, one adjacent node pair: afterwards the edge of the basin pair exists with pass_elevation <= max(elevation of "
+                     "the pair), every stored edge has pass_elevation == max(elevation of its two pass nodes), edge-position table invariant kept"),
+        Group(name="basin.connect.node.nb%d" % nb, units=base + [vis, node], extra_c=[MODEL_H], defines=defs,
+              harness=_hcb("cb_node", "cb_node(%s, nondet_size_t())" % CB_ARGS, nb), entry="h_cb_node", enforce="cb_node",
+              replace=["cb_visit", "grid_neighbors"], unwindset={("cb_node", 0): nb + 1}, backend="cvc5", timeout=900, min_obligations=50, tier=tier,
+              clause="connect_basins, one node of the bottom-up order: root chosen once and only from an unmasked base-level outlet, outer basins "
+                     "linked to the root, invariants kept across the neighbour scan (<= %d neighbours)" % nb),
+        Group(name="basin.connect.loop", units=base + [node, outer], extra_c=[MODEL_H], defines=defs,
+              harness=_hcb("connect_basins", "connect_basins(%s)" % CB_ARGS, nb), entry="h_connect_basins", enforce="connect_basins",
+              replace=["cb_node", "fsl_vsz_resize_b", "fsl_vsz_fill_b"], loop_contracts=True, backend="cvc5", timeout=900, min_obligations=50, tier=tier,
+              clause="connect_basins on ARBITRARY pre-state of m_root / m_edges / m_edge_positions(_tmp) (per-call reset, C09): on return m_root is "
+                     "undefined or an outer basin of the current tables and is defined once an outer outlet was visited; every edge present was "
+                     "built in this call (root link, or pass with pass_elevation == max of its pass nodes)"),
+    ]
+
+
+
+# ---- root slice: the choice / per-call reset of m_root alone, with the inner-basin block abstracted by its frame ----
+CB_INNER_DECL = r"""
+/* the block `if (is_inner_basin) { ... }` of connect_basins, by its frame only: it scans neighbours and edits edges and the
+ * edge-position scratch tables, never m_root / ibasin / is_inner_basin (that frame is what the assigns clauses enforced in
+ * basin.connect.visit and basin.connect.node establish) */
+void cb_inner_block(%s, size_t idfs)
+__CPROVER_assigns(%s)
+__CPROVER_ensures(m_edges_n >= __CPROVER_old(m_edges_n) && m_edge_positions_n == __CPROVER_old(m_edge_positions_n))
+;
+""" % (CB_PARAMS, CB_ASSIGNS_EDGES)
+
+cb_node_root = Unit(
+    name="cb_node_root", file=BG_H, anchor=CB_ANCHOR, inner=r"for \(const auto idfs : dfs_indices\)\s*\{",
+    sig="void cb_node_root(%s, size_t idfs)" % CB_PARAMS, defs=CB_DEFS, pre=CB_INNER_DECL, body_prefix=CB_LOCALS,
+    rules=[RB(r"if \(is_inner_basin\)", "{ cb_inner_block(%s, idfs); }" % CB_ARGS),
+           V(r"\bcontinue;", "return; /* `continue` of the outlined loop body */")] + CB_VOCAB,
+    contract=CB_SHAPE + r"""
+__CPROVER_requires(idfs < gsize && CB_ROOT_OK)
+__CPROVER_assigns(m_root, ibasin, is_inner_basin, """ + CB_ASSIGNS_EDGES + r""")
+__CPROVER_ensures(CB_ROOT_OK && m_edge_positions_n == __CPROVER_old(m_edge_positions_n))
+/* the root is chosen once: an unmasked base-level outlet defines it if it is still undefined, nothing else ever changes it */
+__CPROVER_ensures(m_root == __CPROVER_old(m_root) || (__CPROVER_old(m_root) == SIZE_MAX && CB_OUTER_OUTLET(idfs)))
+__CPROVER_ensures(CB_OUTER_OUTLET(idfs) ==> m_root != SIZE_MAX)
+""")
+
+cb_outer_root = Unit(
+    name="connect_basins_root", file=BG_H, anchor=CB_ANCHOR, sig="void connect_basins_root(%s)" % CB_PARAMS, defs=CB_DEFS,
+    rules=[r for r in make_cb_outer(2).rules if not isinstance(r, RB)][:8] +
+          [RB(r"for \(size_t p_ = 0; p_ < gsize; \+\+p_\)",
+              "{ size_t idfs_ = dfs_indices[FSL_IDX1(p_, gsize)]; FSL_PRE(idfs_ < gsize); cb_node_root(%s, idfs_); }" % CB_ARGS)] + CB_VOCAB,
+    contract=CB_SHAPE + r"""
+__CPROVER_requires(GPOS < gsize)
+/* NOTHING is required of m_root (C09): its pre-state is arbitrary */
+__CPROVER_assigns(m_root, ibasin, is_inner_basin, m_edge_positions_n, """ + CB_ASSIGNS_EDGES + r""")
+/* C15 / C09: on return the root is undefined or an OUTER basin of the current tables (the basin of an unmasked base-level outlet),
+ * and it is defined as soon as such an outlet was visited in this call */
+__CPROVER_ensures(CB_ROOT_OK)
+__CPROVER_ensures((dfs_indices[GPOS] < gsize && CB_OUTER_OUTLET(dfs_indices[GPOS])) ==> m_root != SIZE_MAX)
+""",
+    loops={0: r"""
+__CPROVER_assigns(p_, m_root, ibasin, is_inner_basin, """ + CB_ASSIGNS_EDGES + r""")
+__CPROVER_loop_invariant(p_ <= gsize && m_edge_positions_n == nbasins_ && CB_ROOT_OK)
+__CPROVER_loop_invariant((GPOS < p_ && dfs_indices[GPOS] < gsize && CB_OUTER_OUTLET(dfs_indices[GPOS])) ==> m_root != SIZE_MAX)
+__CPROVER_decreases(gsize - p_)
+"""})
+
+CB_ROOT_GROUPS = [
+    Group(name="basin.connect.root.node", units=[is_masked, is_base_level, cb_make_edge, cb_node_root], extra_c=[MODEL_H], defines=["FSL_NBMAX=2"],
+          harness=_hcb("cb_node_root", "cb_node_root(%s, nondet_size_t())" % CB_ARGS, 2), entry="h_cb_node_root", enforce="cb_node_root",
+          replace=["cb_inner_block"], backend="cvc5", timeout=900, min_obligations=30,
+          clause="connect_basins, one node, root slice: m_root changes only from `undefined` to the basin of an unmasked base-level outlet; it stays "
+                 "undefined or an outer basin of the current tables"),
+    Group(name="basin.connect.root.loop", units=[is_masked, is_base_level, cb_make_edge, cb_node_root, cb_outer_root], extra_c=[MODEL_H], defines=["FSL_NBMAX=2"],
+          harness=_hcb("connect_basins_root", "connect_basins_root(%s)" % CB_ARGS, 2), entry="h_connect_basins_root", enforce="connect_basins_root",
+          replace=["cb_node_root", "fsl_vsz_resize_b", "fsl_vsz_fill_b"], loop_contracts=True, backend="cvc5", timeout=900, min_obligations=30,
+          clause="connect_basins with ARBITRARY pre-state of m_root (C09 per-call reset): on return m_root is undefined or an outer basin of the "
+                 "current tables, and defined once an unmasked base-level outlet was visited"),
+]
+
+cb_make_edge.pre = cb_pre(2)   # ghost declarations, neighbour contract and predicates precede every connect_basins unit
+CB_GROUPS = cb_groups(2)
+
+GROUPS = {"C15": [G_UF_FIND, G_UF_MERGE] + G_UF_LINK + [G_UF_RESIZE, G_UF_CLEAR, G_UF_PUSH, G_KR_CMP, G_KR_STEP] + G_KR_LOOP + CB_ROOT_GROUPS + CB_GROUPS,
+          "C01": [G_SB_STEP, G_SB_LOOP]}
 PROPS = {"C15": dict(level="other", assumptions=[], undecided=[], unmechanised=[], explanation="")}
